@@ -328,21 +328,89 @@ the 3 × 2 window of `exWr`: the second write reports the decoding error and the
 example : (match session utf8Auto putChar exWr (uinit utf8Auto) [[0xe4, 0xb8], [0x61, 0xe4], [0xb8, 0x96]] with
     | .ok (w, rs) => some (w.touched, rs) | .error _ => none) = some ([], [true, false]) := by decide
 
-/-! ## completeness -/
+/-! ## completeness
+
+The specification side is written over plain data — glyph support, pixels per cell and the table of
+character widths (the fields of `Ctx`) — and does not call the model's `Kind.size`, `classify` or
+`keepNoWrap`. -/
+
+/-- rows and columns a cell occupies on the screen -/
+def specSize (ctx : Ctx) : Kind → Nat × Nat
+  | .chr c => (1, ctx.width c)
+  | .glyph h w fb => if ctx.hasGlyphs then (h, w) else (1, (fb.map ctx.width).sum)
+  | .image ph pw =>
+    if ctx.ppcH = 0 ∨ ctx.ppcW = 0 ∨ ph = 0 ∨ pw = 0 then (0, 0)
+    else ((ph + ctx.ppcH - 1) / ctx.ppcH, (pw + ctx.ppcW - 1) / ctx.ppcW)
 
 /-- a cell that occupies space on the screen: not one of the three control characters, non-zero size -/
-def isPrintable (ctx : Ctx) : Kind → Bool
-  | .chr c => c ≠ 10 && c ≠ 13 && c ≠ 9 && ctx.width c ≠ 0
-  | k => (k.size ctx).1 ≠ 0 && (k.size ctx).2 ≠ 0
+def isPrintable (ctx : Ctx) (k : Kind) : Bool :=
+  k ≠ .chr 10 && k ≠ .chr 13 && k ≠ .chr 9 && (specSize ctx k).1 ≠ 0 && (specSize ctx k).2 ≠ 0
 
 /-- what is written for a text: its cells, a glyph without glyph support replaced by its fallback characters -/
 def written (ctx : Ctx) (t : Text) : List Kind := (t.cells.flatMap (expandCell ctx)).map (·.kind)
 
-theorem isPrintable_classify (ctx : Ctx) (k : Kind) :
-    isPrintable ctx k = match classify ctx k with | .sized _ _ => true | _ => false := by
+/-- the cells a line by line layout without wrapping keeps at available width `W`, column by column: a
+newline (or carriage return) starts at column 0, a tab moves to the next multiple of 8 clipped to `W`, a
+printable cell is kept exactly when its right edge `col + width` does not exceed `W`, a dropped cell does not
+move the column -/
+def keptNoWrap (ctx : Ctx) (W : Nat) : List Kind → Nat → List Kind
+  | [], _ => []
+  | k :: ks, col =>
+    if k = .chr 10 ∨ k = .chr 13 then keptNoWrap ctx W ks 0
+    else if k = .chr 9 then keptNoWrap ctx W ks (if col < W then min ((col / 8 + 1) * 8) W else col)
+    else if isPrintable ctx k then
+      if col + (specSize ctx k).2 ≤ W then k :: keptNoWrap ctx W ks (col + (specSize ctx k).2)
+      else keptNoWrap ctx W ks col
+    else keptNoWrap ctx W ks col
+
+/-- the cells of a text that have to be on the surface -/
+def shown (ctx : Ctx) (W : Nat) (t : Text) : List Kind :=
+  if t.wraps then (written ctx t).filter (isPrintable ctx) else keptNoWrap ctx W (written ctx t) 0
+
+theorem ceil_div (a b : Nat) (hb : 0 < b) : (a + b - 1) / b = if a % b = 0 then a / b else a / b + 1 := by
+  have hdm := Nat.div_add_mod a b
+  have hlt := Nat.mod_lt a hb
+  by_cases hr : a % b = 0
+  · simp only [hr, if_true]
+    have : a + b - 1 = b * (a / b) + (b - 1) := by
+      generalize b * (a / b) = m at hdm ⊢
+      generalize a % b = r at hdm hr hlt
+      omega
+    have hb1 : (b - 1) / b = 0 := Nat.div_eq_of_lt (by omega)
+    rw [this, Nat.mul_add_div hb, hb1]
+    omega
+  · simp only [hr, if_false]
+    have : a + b - 1 = b * (a / b + 1) + (a % b - 1) := by
+      rw [Nat.mul_add, Nat.mul_one]
+      generalize b * (a / b) = m at hdm ⊢
+      generalize a % b = r at hdm hr hlt ⊢
+      omega
+    have hlt2 : a % b - 1 < b := by
+      generalize a % b = r at hlt
+      omega
+    have hb1 : (a % b - 1) / b = 0 := Nat.div_eq_of_lt hlt2
+    rw [this, Nat.mul_add_div hb, hb1]
+
+theorem specSize_eq (ctx : Ctx) (k : Kind) : specSize ctx k = k.size ctx := by
+  cases k with
+  | chr c => rfl
+  | glyph h w fb => rfl
+  | image ph pw =>
+    simp only [specSize, Kind.size, sizeCells]
+    split
+    · rfl
+    · rename_i hz
+      have h1 : 0 < ctx.ppcH := by omega
+      have h2 : 0 < ctx.ppcW := by omega
+      rw [ceil_div ph _ h1, ceil_div pw _ h2]
+
+/-- the model's classification of a cell, in terms of the specification's notions -/
+theorem classify_spec (ctx : Ctx) (k : Kind) :
+    classify ctx k = if k = .chr 10 then .nl else if k = .chr 13 then .cr else if k = .chr 9 then .tab
+      else if isPrintable ctx k then .sized (specSize ctx k).1 (specSize ctx k).2 else .skip := by
   cases k with
   | chr c =>
-    simp only [isPrintable, classify]
+    simp only [classify, isPrintable, specSize, Kind.chr.injEq]
     by_cases h10 : c = 10
     · simp [h10]
     · by_cases h13 : c = 13
@@ -351,83 +419,175 @@ theorem isPrintable_classify (ctx : Ctx) (k : Kind) :
         · simp [h9]
         · by_cases hw : ctx.width c = 0 <;> simp [h10, h13, h9, hw]
   | image ph pw =>
-    simp only [isPrintable, classify]
-    by_cases hz : (Kind.size ctx (.image ph pw)).1 = 0 ∨ (Kind.size ctx (.image ph pw)).2 = 0
+    simp only [classify, isPrintable, ← specSize_eq]
+    by_cases hz : (specSize ctx (.image ph pw)).1 = 0 ∨ (specSize ctx (.image ph pw)).2 = 0
     · rcases hz with hz | hz <;> simp [hz]
-    · have h1 : (Kind.size ctx (.image ph pw)).1 ≠ 0 := fun h => hz (Or.inl h)
-      have h2 : (Kind.size ctx (.image ph pw)).2 ≠ 0 := fun h => hz (Or.inr h)
+    · have h1 : (specSize ctx (.image ph pw)).1 ≠ 0 := fun h => hz (Or.inl h)
+      have h2 : (specSize ctx (.image ph pw)).2 ≠ 0 := fun h => hz (Or.inr h)
       simp [h1, h2]
   | glyph gh gw fb =>
-    simp only [isPrintable, classify]
-    by_cases hz : (Kind.size ctx (.glyph gh gw fb)).1 = 0 ∨ (Kind.size ctx (.glyph gh gw fb)).2 = 0
+    simp only [classify, isPrintable, ← specSize_eq]
+    by_cases hz : (specSize ctx (.glyph gh gw fb)).1 = 0 ∨ (specSize ctx (.glyph gh gw fb)).2 = 0
     · rcases hz with hz | hz <;> simp [hz]
-    · have h1 : (Kind.size ctx (.glyph gh gw fb)).1 ≠ 0 := fun h => hz (Or.inl h)
-      have h2 : (Kind.size ctx (.glyph gh gw fb)).2 ≠ 0 := fun h => hz (Or.inr h)
+    · have h1 : (specSize ctx (.glyph gh gw fb)).1 ≠ 0 := fun h => hz (Or.inl h)
+      have h2 : (specSize ctx (.glyph gh gw fb)).2 ≠ 0 := fun h => hz (Or.inr h)
       simp [h1, h2]
 
-/-- **C09, text complete.** A wrapping `Text` without carriage returns is laid out under maximum width
-`W ≥ 1` (height not constrained: `hH`) and rendered into a view — any chain of `view` / `transpose` steps —
-whose size is exactly the size `Text::layout` reported. Then rendering does not panic, and there is a list
-of (position, kind) pairs such that: the kinds are exactly the printable cells of the text in order (for a
-glyph without glyph support its fallback characters); the positions are strictly increasing in reading
-order; every pair is shown — the surface holds that kind at that position, inside the view —; and every
-other position of the view holds what it held before. So every printable cell appears exactly once, in
-reading order. -/
-theorem C09_text_complete (ctx : Ctx) (t : Text) (hwr : t.wraps = true) (W maxH : Nat) (hW1 : 1 ≤ W) (hWU : W < U)
+theorem isPrintable_classify (ctx : Ctx) (k : Kind) :
+    isPrintable ctx k = match classify ctx k with | .sized _ _ => true | _ => false := by
+  rw [classify_spec]
+  by_cases h10 : k = .chr 10
+  · simp [h10, isPrintable]
+  · by_cases h13 : k = .chr 13
+    · simp [h13, isPrintable]
+    · by_cases h9 : k = .chr 9
+      · simp [h9, isPrintable]
+      · cases hp : isPrintable ctx k <;> simp [h10, h13, h9]
+
+/-- the model's mask of kept cells selects exactly the specification's `keptNoWrap` -/
+theorem keepNoWrap_spec (ctx : Ctx) (W : Nat) (ks : List Kind) (col : Nat) :
+    ((ks.zip (keepNoWrap W (ks.map (classify ctx)) col)).filterMap fun x => if x.2 then some x.1 else none)
+      = keptNoWrap ctx W ks col := by
+  induction ks generalizing col with
+  | nil => simp [keepNoWrap, keptNoWrap]
+  | cons k ks ih =>
+    simp only [List.map_cons, keptNoWrap]
+    rw [classify_spec]
+    by_cases h10 : k = .chr 10
+    · simp [h10, keepNoWrap, ih]
+    · by_cases h13 : k = .chr 13
+      · simp [h13, keepNoWrap, ih]
+      · by_cases h9 : k = .chr 9
+        · simp [h9, keepNoWrap, ih]
+        · simp only [h10, h13, h9, if_false, or_self]
+          cases hp : isPrintable ctx k
+          · simp [keepNoWrap, ih]
+          · simp only [if_true, keepNoWrap]
+            by_cases hf : col + (specSize ctx k).2 ≤ W
+            · simp [hf, ih]
+            · simp [hf, ih]
+
+/-- **C09, text complete — the full claim.** For every text (either wrap mode), every constraint whose
+height does not cut the text, every view with room for the reported size at the layout position: rendering
+does not panic and there is a list of (position, kind) pairs whose kinds are exactly `shown` (wrapping: the
+printable cells of the text, for a glyph without glyph support its fallback characters; no wrapping: the
+cells `keptNoWrap` keeps — those whose right edge does not exceed the available width) in text order, at
+positions strictly increasing in reading order inside the view, each pair on the surface, every other
+position of the view unchanged. NOT provable as it stands for texts containing a carriage return: the code
+lets the cells after a `\r` overwrite the earlier cells of the line (the property's quantifier does not list
+carriage returns); `C09_text_complete_partial` proves everything else. -/
+def C09_text_complete_full : Prop :=
+  ∀ (ctx : Ctx) (t : Text) (ct : Ct), 1 ≤ ct.maxW → ct.maxW < U → (written ctx t).length + 1 < U →
+    (t.layoutRun ctx ct.maxW).1.sh ≤ ct.maxH →
+    ∀ (H' W' : Nat), t.layout ctx ct = some (H', W') →
+    ∀ (h w : Nat) (ops : List Op) (data : List Cell), data.length = h * w →
+    ∀ (row col : Nat),
+    let sh := applyTo (Shape.chain ops (Shape.from h w)) row col H' W'
+    sh.height = H' → sh.width = W' →
+    ∃ (wr : Writer) (placed : List ((Nat × Nat) × Kind)),
+      t.render ctx (Shape.chain ops (Shape.from h w)) data row col H' W' = some wr ∧
+      placed.map (·.2) = shown ctx ct.maxW t ∧
+      (placed.map (·.1)).Pairwise lexLt ∧
+      (∀ q ∈ placed, q.1.1 < sh.height ∧ q.1.2 < sh.width ∧
+        (wr.data[sh.offset q.1.1 q.1.2]?).map Cell.kind = some q.2) ∧
+      (∀ r c, r < sh.height → c < sh.width → (r, c) ∉ placed.map (·.1) →
+        (wr.data[sh.offset r c]?).map Cell.kind = (data[sh.offset r c]?).map Cell.kind)
+
+/-- **C09, text complete (all of `C09_text_complete_full` except texts with carriage returns).** A `Text`
+without carriage returns, wrapping or not, is laid out under a constraint `ct` (any minimum, maximum width
+`1 ≤ W < 2^64`, maximum height not cutting the text: `hH`) and rendered through `Text::render` into any view
+— any chain of `view` / `transpose` steps — at any layout position, with room for the size `Text::layout`
+reported (`hroomH`, `hroomW`: the window `Layout::apply_to` cuts out has exactly the reported size). Then
+rendering does not panic and the surface shows exactly `shown`: with wrapping every printable cell of the
+text (fallback characters for glyphs without glyph support), without wrapping exactly the cells whose right
+edge does not exceed `W` (`keptNoWrap`) — each once, in text order, at strictly increasing positions in
+reading order inside the view —, and every other position of the view holds what it held before. -/
+theorem C09_text_complete_partial (ctx : Ctx) (t : Text) (ct : Ct) (hW1 : 1 ≤ ct.maxW) (hWU : ct.maxW < U)
     (hcr : ∀ k ∈ written ctx t, k ≠ .chr 13) (hlen : (written ctx t).length + 1 < U)
-    (hH : (t.layoutRun ctx W).1.sh ≤ maxH)
-    (h w : Nat) (ops : List Op) (data : List Cell) (hd : data.length = h * w)
-    (hsz : ((Shape.chain ops (Shape.from h w)).height, (Shape.chain ops (Shape.from h w)).width) = t.layout ctx maxH W) :
-    let sh := Shape.chain ops (Shape.from h w)
-    ∃ (wr : Writer) (placed : List ((Nat × Nat) × Kind)), t.renderOn ctx sh data = some wr ∧
-      placed.map (·.2) = (written ctx t).filter (isPrintable ctx) ∧
+    (hH : (t.layoutRun ctx ct.maxW).1.sh ≤ ct.maxH)
+    (H' W' : Nat) (hlay : t.layout ctx ct = some (H', W'))
+    (h w : Nat) (ops : List Op) (data : List Cell) (hd : data.length = h * w) (row col : Nat)
+    (hroomH : (applyTo (Shape.chain ops (Shape.from h w)) row col H' W').height = H')
+    (hroomW : (applyTo (Shape.chain ops (Shape.from h w)) row col H' W').width = W') :
+    let sh := applyTo (Shape.chain ops (Shape.from h w)) row col H' W'
+    ∃ (wr : Writer) (placed : List ((Nat × Nat) × Kind)),
+      t.render ctx (Shape.chain ops (Shape.from h w)) data row col H' W' = some wr ∧
+      placed.map (·.2) = shown ctx ct.maxW t ∧
       (placed.map (·.1)).Pairwise lexLt ∧
       (∀ q ∈ placed, q.1.1 < sh.height ∧ q.1.2 < sh.width ∧
         (wr.data[sh.offset q.1.1 q.1.2]?).map Cell.kind = some q.2) ∧
       (∀ r c, r < sh.height → c < sh.width → (r, c) ∉ placed.map (·.1) →
         (wr.data[sh.offset r c]?).map Cell.kind = (data[sh.offset r c]?).map Cell.kind) := by
   intro sh
+  -- the window is itself a view chain of the root surface
+  let ops' := ops ++ [Op.view (.range row (SurfModel.TextLayout.satAdd row H')) (.range col (SurfModel.TextLayout.satAdd col W'))]
+  have hsh : sh = Shape.chain ops' (Shape.from h w) := by
+    simp only [sh, ops', applyTo, Shape.chain, List.foldl_append, List.foldl_cons, List.foldl_nil, Shape.apply]
   have hks : ((t.cells.flatMap (expandCell ctx)).map (·.kind)) = written ctx t := rfl
-  have hlr : t.layoutRun ctx W = layoutRun ctx W true (written ctx t) LSt.init := by
-    simp only [Text.layoutRun, hwr, written]
-  -- the reported size is the tracked size
-  have hsw : (layoutRun ctx W true (written ctx t) LSt.init).1.sw ≤ W := by
+  have hlr : t.layoutRun ctx ct.maxW = layoutRun ctx ct.maxW t.wraps (written ctx t) LSt.init := by
+    simp only [Text.layoutRun, written]
+  have hsw : (layoutRun ctx ct.maxW t.wraps (written ctx t) LSt.init).1.sw ≤ ct.maxW := by
     rw [layoutRun_eq_run]
-    exact run_col_sw_le W true _ LSt.init (by simp [LSt.init]) (by simp [LSt.init])
-  simp only [Text.layout, hlr, Prod.mk.injEq] at hsz
+    exact run_col_sw_le ct.maxW t.wraps _ LSt.init (by simp [LSt.init]) (by simp [LSt.init])
+  -- the reported size covers the tracked size and its width lies between the tracked and the available width
   rw [hlr] at hH
-  obtain ⟨hsh, hsww⟩ := hsz
-  have hheight : sh.height = (layoutRun ctx W true (written ctx t) LSt.init).1.sh := by
-    rw [hsh]; exact Nat.min_eq_left hH
-  have hwidth : sh.width = (layoutRun ctx W true (written ctx t) LSt.init).1.sw := by
-    rw [hsww]; exact Nat.min_eq_left hsw
-  obtain ⟨hag, hlen2, hins, hinc, hsome, _⟩ := C09_layout_agrees ctx true (written ctx t) W sh.width hW1 hWU hlen
-    (by rw [hwidth]; exact Nat.le_refl _) (by rw [hwidth]; exact hsw)
+  simp only [Text.layout, hlr, Ct.clamp, clampU] at hlay
+  have hHW : (layoutRun ctx ct.maxW t.wraps (written ctx t) LSt.init).1.sh ≤ H' ∧
+      (layoutRun ctx ct.maxW t.wraps (written ctx t) LSt.init).1.sw ≤ W' ∧ W' ≤ ct.maxW := by
+    split at hlay
+    · cases hlay
+    · rename_i h1 hc1
+      split at hc1
+      · cases hc1
+      · cases hc1
+        split at hlay
+        · cases hlay
+        · rename_i w1 hc2
+          split at hc2
+          · cases hc2
+          · cases hc2
+            simp only [Option.some.injEq, Prod.mk.injEq] at hlay
+            obtain ⟨rfl, rfl⟩ := hlay
+            refine ⟨?_, ?_, ?_⟩ <;> (repeat' split) <;> omega
+  have hheight : sh.height = H' := hroomH
+  have hwidth : sh.width = W' := hroomW
+  obtain ⟨hag, hlen2, hins, hinc, hsome, hno⟩ := C09_layout_agrees ctx t.wraps (written ctx t) ct.maxW sh.width hW1 hWU hlen
+    (by rw [hwidth]; exact hHW.2.1) (by rw [hwidth]; exact hHW.2.2)
+  have hinside : ∀ p ∈ (layoutRun ctx ct.maxW t.wraps (written ctx t) LSt.init).2.filterMap id,
+      p.1 < sh.height ∧ p.2 < sh.width := by
+    intro p hp
+    have := hins p hp
+    rw [hheight]
+    exact ⟨Nat.lt_of_lt_of_le this.1 hHW.1, this.2⟩
   -- the writer `Text::render` creates
-  have hok : ShOk sh (data.length) := by rw [hd]; exact shOk_chain h w ops
+  have hok : ShOk sh (data.length) := by rw [hd, hsh]; exact shOk_chain h w ops'
   obtain ⟨wr, hall, _, _, _, hkinds⟩ := putAllTrue_run { Writer.new ctx sh data with wraps := t.wraps }
     (t.cells.flatMap (expandCell ctx)) hok
-    (by
-      simp only [Writer.new, hwr, hks, hag]
-      intro p hp
-      have := hins p hp
-      rw [hheight]
-      exact this)
-  simp only [Writer.new, hwr, hks, hag] at hkinds
-  have hrender : t.renderOn ctx sh data = some wr := putCells_of_allTrue _ t.cells wr hall
-  have hinj := SurfProofs.C07.C07_injective h w ops
-  refine ⟨wr, placedOf (layoutRun ctx W true (written ctx t) LSt.init).2 (written ctx t), hrender, ?_, ?_, ?_, ?_⟩
-  · rw [placedOf_snd _ _ (fun k => match classify ctx k with | .sized _ _ => true | _ => false) (hsome rfl)]
-    apply List.filter_congr
-    intro k _
-    exact (isPrintable_classify ctx k).symm
+    (by simp only [Writer.new, hks, hag]; exact hinside)
+  simp only [Writer.new, hks, hag] at hkinds
+  have hrender : t.render ctx (Shape.chain ops (Shape.from h w)) data row col H' W' = some wr :=
+    putCells_of_allTrue _ t.cells wr hall
+  have hinj := SurfProofs.C07.C07_injective h w ops'
+  rw [← hsh] at hinj
+  refine ⟨wr, placedOf (layoutRun ctx ct.maxW t.wraps (written ctx t) LSt.init).2 (written ctx t), hrender, ?_, ?_, ?_, ?_⟩
+  · rw [placedOf_snd_mask _ _ hlen2]
+    unfold shown
+    cases hwr : t.wraps
+    · rw [hwr] at hno
+      rw [hno rfl, keepNoWrap_spec]
+      simp
+    · rw [hwr] at hsome
+      rw [hsome rfl, mask_filter]
+      simp only [if_true]
+      apply List.filter_congr
+      intro k _
+      exact (isPrintable_classify ctx k).symm
   · rw [placedOf_fst _ _ hlen2]
     exact hinc hcr
   · intro q hq
-    have hq1 : q.1 ∈ (layoutRun ctx W true (written ctx t) LSt.init).2.filterMap id := by
+    have hq1 : q.1 ∈ (layoutRun ctx ct.maxW t.wraps (written ctx t) LSt.init).2.filterMap id := by
       rw [← placedOf_fst _ _ hlen2]; exact List.mem_map_of_mem hq
-    have hwin := hins q.1 hq1
-    rw [← hheight] at hwin
+    have hwin := hinside q.1 hq1
     refine ⟨hwin.1, hwin.2, ?_⟩
     obtain ⟨l1, l2, hsplit⟩ := List.append_of_mem hq
     rw [hkinds, hsplit]
@@ -435,11 +595,10 @@ theorem C09_text_complete (ctx : Ctx) (t : Text) (hwr : t.wraps = true) (W maxH 
     apply foldK_last sh _ l1 l2 qp qk _ rfl
     intro x hx heq
     -- a later cell at the same offset would sit at the same position: excluded by the reading order
-    have hx1 : x.1 ∈ (layoutRun ctx W true (written ctx t) LSt.init).2.filterMap id := by
+    have hx1 : x.1 ∈ (layoutRun ctx ct.maxW t.wraps (written ctx t) LSt.init).2.filterMap id := by
       rw [← placedOf_fst _ _ hlen2, hsplit]
       exact List.mem_map_of_mem (List.mem_append_right _ (List.mem_cons_of_mem _ hx))
-    have hxw := hins x.1 hx1
-    rw [← hheight] at hxw
+    have hxw := hinside x.1 hx1
     have := hinj x.1.1 x.1.2 qp.1 qp.2 hxw.1 hxw.2 hwin.1 hwin.2 heq
     have hpw := hinc hcr
     rw [← placedOf_fst _ _ hlen2, hsplit, List.map_append, List.map_cons, List.pairwise_append] at hpw
@@ -451,30 +610,34 @@ theorem C09_text_complete (ctx : Ctx) (t : Text) (hwr : t.wraps = true) (W maxH 
     rw [hkinds]
     apply foldK_none
     intro x hx heq
-    have hx1 : x.1 ∈ (layoutRun ctx W true (written ctx t) LSt.init).2.filterMap id := by
+    have hx1 : x.1 ∈ (layoutRun ctx ct.maxW t.wraps (written ctx t) LSt.init).2.filterMap id := by
       rw [← placedOf_fst _ _ hlen2]; exact List.mem_map_of_mem hx
-    have hxw := hins x.1 hx1
-    rw [← hheight] at hxw
+    have hxw := hinside x.1 hx1
     have := hinj x.1.1 x.1.2 r c hxw.1 hxw.2 hr hc heq
     apply hnot
     have hxe : x.1 = (r, c) := Prod.ext this.1 this.2
     rw [← hxe]
     exact List.mem_map_of_mem hx
 
-
 /-- the hypotheses are met — the repaired case: a glyph with the seven character fallback `abcdefg` on a
-terminal without glyph support under maximum width 3 reports 3 × 3, and a 3 × 3 window of a 5 × 5
-surface (offset, strided) shows all seven characters -/
+terminal without glyph support under maximum width 3 reports 3 × 3, and a 3 × 3 window at layout position
+(1, 1) of a 5 × 5 surface (offset, strided) shows all seven characters -/
 def exCtxNoGlyphs : Ctx := { hasGlyphs := false, ppcH := 1, ppcW := 1, width := fun _ => 1 }
 def exText : Text := { Text.new with cells := [⟨Face.dflt, .glyph 1 2 [97, 98, 99, 100, 101, 102, 103]⟩] }
-def exOps : List Op := [.view (.range 1 4) (.range 1 4)]
-example : exText.wraps = true ∧ (∀ k ∈ written exCtxNoGlyphs exText, k ≠ .chr 13) ∧
+example : (∀ k ∈ written exCtxNoGlyphs exText, k ≠ .chr 13) ∧
     (written exCtxNoGlyphs exText).length + 1 < U ∧ (exText.layoutRun exCtxNoGlyphs 3).1.sh ≤ 100 ∧
-    ((Shape.chain exOps (Shape.from 5 5)).height, (Shape.chain exOps (Shape.from 5 5)).width)
-      = exText.layout exCtxNoGlyphs 100 3 ∧ exText.layout exCtxNoGlyphs 100 3 = (3, 3) := by decide
-example : (exText.renderOn exCtxNoGlyphs (Shape.chain exOps (Shape.from 5 5)) (List.replicate 25 ⟨Face.dflt, .chr 35⟩)).map
+    exText.layout exCtxNoGlyphs (Ct.loose 100 3) = some (3, 3) ∧
+    (applyTo (Shape.chain [] (Shape.from 5 5)) 1 1 3 3).height = 3 ∧
+    (applyTo (Shape.chain [] (Shape.from 5 5)) 1 1 3 3).width = 3 := by decide
+example : (exText.render exCtxNoGlyphs (Shape.chain [] (Shape.from 5 5)) (List.replicate 25 ⟨Face.dflt, .chr 35⟩) 1 1 3 3).map
     (fun w => w.data.map fun c => match c.kind with | .chr c => c | _ => 0)
     = some [35, 35, 35, 35, 35, 35, 97, 98, 99, 35, 35, 100, 101, 102, 35, 35, 103, 35, 35, 35, 35, 35, 35, 35, 35] := by
   decide
+/-- without wrapping, under a tight constraint 2 × 4: `ab世c` keeps `a`, `b`, `世`; `c` is beyond the right edge -/
+def exTextNoWrap : Text :=
+  { Text.new with wraps := false, cells := [⟨Face.dflt, .chr 97⟩, ⟨Face.dflt, .chr 98⟩, ⟨Face.dflt, .chr 19990⟩, ⟨Face.dflt, .chr 99⟩] }
+example : exTextNoWrap.layout exCtx ⟨2, 4, 2, 4⟩ = some (2, 4) ∧
+    shown exCtx 4 exTextNoWrap = [.chr 97, .chr 98, .chr 19990] ∧
+    (exTextNoWrap.layoutRun exCtx 4).1.sh ≤ 2 := by decide
 
 end SurfProofs.C09
